@@ -77,7 +77,10 @@ CLAIMS = {
              "set operations, subqueries in WHERE / select list / HAVING, nesting depth 2, every statement kind incl. noop kinds - proves the "
              "extractor-shaped machine reports exactly BaseTables/Target on the intended track, and prints each program; each is rendered to "
              "SQL, analysed by the real code and the observation is decided by Trace_Stmt (ideal first; a rejected observation is a known "
-             "finding only if it equals the deviant track and every fired deviation is listed). Simulated programs reach depth 4.",
+             "finding only if it equals the deviant track and every fired deviation is listed). Simulated programs reach depth 4. Also enumerated: parenthesised joins, subqueries in ON conditions "
+             "and on both sides of a WHERE comparison, nested set operations, WITH in front of UPDATE / MERGE / DELETE; renderer dimensions: "
+             "aliases restarting per scope, select-list subquery in ELSE / THEN / function-argument position, MERGE source named directly, "
+             "derived tables with a WITH clause of their own.",
         note="trusted: TLC, sqlfluff as parser, the token renderer harness/render_stmt.py; one spelling per program here (C07/C08/C09 vary spelling, naming, dialect)"),
     "C09": dict(
         design="5/C09, 3.2",
@@ -137,7 +140,7 @@ CLAIMS = {
              "wildcards, explicit column list, UNION ALL branch, metadata knowledge) and defines Flow by index; TLC proves that resolving the "
              "rendered qualifiers BY NAME through the alias map (intended precedence) yields Flow for every valid program, and prints the "
              "programs; each is rendered (expression forms: function, cast, case, arithmetic, window, parenthesised, nested; join styles) and the "
-             "(source, target) pairs the real analyser reports are decided by Trace_Col.",
+             "(source, target) pairs the real analyser reports are decided by Trace_Col. Statement kinds: INSERT, INSERT with column list, CREATE TABLE AS, UPDATE ... FROM, MERGE (both arms); references also to a scalar subquery, to count(*) and through a qualifier that names nothing in scope; half of the items are rendered as random expression trees of depth <= 3.",
         note="trusted: TLC, sqlfluff as parser, the renderer harness/render_col.py; one FROM scope with derived tables one level deep (deeper nesting is Stmt.tla's table-level business); expression forms are enumerated by the renderer"),
     "C13": dict(
         design="5/C13, 3.2",
@@ -147,14 +150,14 @@ CLAIMS = {
              "target, and the explicit column list winning; TLC enumerates every assignment and prints the programs; each is analysed with "
              "DummyMetaDataProvider, with SQLAlchemyMetaDataProvider on an in-memory sqlite holding the same knowledge, and without any "
              "provider (= the program with the knowledge erased); each observation incl. 'table lineage equals the one without metadata' is "
-             "decided by Trace_Col.",
+             "decided by Trace_Col. Also: a column listed by the metadata of several in-scope tables, count(*) next to an expanded wildcard, a parenthesised source query, CREATE TABLE AS into a known target.",
         note="trusted: TLC, the renderer, sqlite as the database behind the SQLAlchemy provider; knowledge: s.a(c,d), s.b(c,e), target t1..tn"),
     "C16": dict(
         design="5/C16, 3.1",
         technique="TLA+ model checking (TLC) of Names.tla (normaliser applied once at every position) + every TLC-enumerated (spelling, position) pair rendered and analysed under the dialect admitting its quote style + TLC trace validation (Trace_Names)",
         text="Names.tla models identifier parts (case pattern x unquoted / double quotes / backticks / square brackets, 1-3 parts), the "
              "normaliser and the syntactic positions that establish and look up a name (target -> later FROM, select alias and INSERT column "
-             "list -> later column reference, alias definition -> qualifier, FROM -> FROM); TLC proves that entities found again are exactly "
+             "list -> later column reference, alias definition -> qualifier, FROM -> FROM, FROM -> the table's name as column qualifier; quoted names containing a dot); TLC proves that entities found again are exactly "
              "the equal ones when every position normalises once, finds the double normalisation as a deviation, and prints every case; "
              "each is rendered into one- and two-statement scripts and both the printed names and 'the read finds what the write "
              "established' are decided by Trace_Names.",
@@ -166,7 +169,7 @@ CLAIMS = {
              "writing the next target and reading the base table or any earlier target, tracks the columns the script establishes for every "
              "table (what the run's session holds) and defines EndToEnd as the relational composition of the flows; TLC checks that unconsumed "
              "columns end at intermediates and prints every script; each is rendered and run with a truthy provider and without one, and the "
-             "observed (first, last) pairs are decided by Trace_Chain.",
+             "observed (first, last) pairs are decided by Trace_Chain. Renderings: INSERT, through a derived table every statement calls q, CREATE TABLE AS with a catalog that lists a stale layout of every target.",
         note="trusted: TLC, the script renderer; the provider in use knows only an unrelated table (truthy); full paths' shape is C06's business"),
 }
 
